@@ -913,6 +913,7 @@ func cmdRun1(args []string) int {
 	seed := fs.Uint64("seed", 1, "")
 	nobuild := fs.Bool("nobuild", false, "")
 	showLog := fs.Bool("log", false, "")
+	gmp := fs.String("gmp", "", "GOMAXPROCS of the worker")
 	fs.Parse(args)
 	if !*nobuild {
 		if err := build(); err != nil {
@@ -925,7 +926,7 @@ func cmdRun1(args []string) int {
 	if w == "" {
 		w = props[*prop].World
 	}
-	r := runWorker(Spec{Prop: *prop, World: w, Seed: *seed, LogKeep: 5000})
+	r := runWorker(Spec{Prop: *prop, World: w, Seed: *seed, LogKeep: 5000, GMP: *gmp})
 	if *showLog {
 		for _, l := range r.Log {
 			fmt.Println(l)
